@@ -563,7 +563,7 @@ impl Property for C04 {
         "case = start forest (documents, fragments, unattached elements, free attribute/namespace/text nodes in one Xot) + history of calls drawn from the whole mutating API with operands = any live node of any kind; after every step the bounded snapshot must satisfy all structural invariants, removed handles must stay removed, handles keep their kind, xml_id_node never returns a removed node. Non-trivial = at least one successful structural move and a removal followed by an allocation (small-scope plan: a successful move). Distinct by hash of (start forest, executed ops). Plan 'small' enumerates every (tiny tree, operation, operand tuple); plans 'small-adjacent' / 'hist-adjacent' start from forests with runs of adjacent and empty text nodes (left from a time when consolidation was off) with consolidation on again."
     }
     fn plans(&self, tier: Tier) -> Vec<Plan> {
-        plans(tier, 40_000, 1_000_000)
+        plans(tier, 120_000, 1_000_000)
     }
     fn check(&self, src: &mut Src, ctx: &mut Ctx) -> Verdict {
         run(Mode::Invariants, src, ctx)
@@ -578,7 +578,7 @@ impl Property for C06 {
         "same histories as C04 (all operand tuples, including ones the call must refuse, and the element-only accessors on non-elements); a panic other than the three documented messages is a violation; after every call that returned Err the full observation (bounded snapshot of every tree, to_string of every document/element root, is_removed of every handle ever seen) must equal the observation before. Non-trivial = at least one refused call whose two operands were both attached nodes. Distinct by hash of (start forest, executed ops)."
     }
     fn plans(&self, tier: Tier) -> Vec<Plan> {
-        plans(tier, 40_000, 1_000_000)
+        plans(tier, 120_000, 1_000_000)
     }
     fn check(&self, src: &mut Src, ctx: &mut Ctx) -> Verdict {
         run(Mode::Refusal, src, ctx)
